@@ -4,7 +4,7 @@ EXTENDS QueryGlob_Cases, TLC, Json, IOUtils, SequencesExt
 Cases == {[kind |-> "pkg", cat |-> x.cat, pkg |-> x.pkg, ver |-> x.ver, slot |-> x.slot, sub |-> x.sub, repo |-> x.repo,
            text |-> <<>>] : x \in Universe}
          \cup {[kind |-> "query", cat |-> <<>>, pkg |-> <<>>, ver |-> <<>>, slot |-> <<>>, sub |-> <<>>, repo |-> <<>>,
-                text |-> RenderQ(x)] : x \in Queries}
+                text |-> RenderQ(x)] : x \in {y \in Queries : ~Carved(y)}}
          \cup {[kind |-> "query", cat |-> <<>>, pkg |-> <<>>, ver |-> <<>>, slot |-> <<>>, sub |-> <<>>, repo |-> <<>>,
                 text |-> t] : t \in Blockers}
 ASSUME ndJsonSerialize(IOEnv.OUT, SetToSeq(Cases))
